@@ -293,7 +293,7 @@ func cachingMonitor(k *CachingCase) []c.Hit {
 			switch {
 			case src == nil:
 				add("phantom-hit:caching", want, "the replayed response was never handed to OnResponse")
-			case src.Method != o.Method || src.URL != o.URL ||
+			case src.Method != o.Method || !sameURL(src.URL, o.URL) ||
 				selectedValuation(&k.Conf, src.Params) != selectedValuation(&k.Conf, o.Params):
 				// F-C12d: strings.Join of name:value pairs is ambiguous when a selected
 				// name contains '.' or ':' or a selected value contains '.'
@@ -351,6 +351,7 @@ func cachingRecord(o *c.Out, k *CachingCase) {
 		}
 	}
 	o.CountN("caching.calls_with_unclean_selected_pairs(F-C12d)", unclean)
+	cachingLetterCaseCounts(o, k)
 	o.Count(fmt.Sprintf("caching.len=%02d", len(k.Ops)))
 	o.CountN("caching.hits", hit)
 	o.CountN("caching.misses", miss)
@@ -398,6 +399,13 @@ func entryBytes(method, url string, vid, bodyLen int) int64 {
 }
 
 func genCachingHistory(o *c.Out, rng *c.Rng, t0 int64) {
+	genCachingHistoryURLs(o, rng, t0, []string{"a.com/x", "a.com/y", "a.com/x/"})
+}
+
+// genCachingHistoryURLs: a random history over 2 methods x the given URLs x
+// path-parameter valuations (the URL pool is a parameter: lettercase.go uses
+// families of URLs that differ only in letter case).
+func genCachingHistoryURLs(o *c.Out, rng *c.Rng, t0 int64, urls []string) {
 	cf := CachingConf{Paths: c.Pick(rng, pathPools), TTLg: c.Pick(rng, []int64{1, 2, 2, 512, 1536, 2, 512, 0, -1, -512}),
 		MaxRec: c.Pick(rng, []int{40, 40, 1000})}
 	if rng.Chance(1, 20) {
@@ -405,7 +413,6 @@ func genCachingHistory(o *c.Out, rng *c.Rng, t0 int64) {
 	}
 	bodyLens := []int{8, 30, 39, 40, 41}
 	methods := []string{"GET", "POST"}
-	urls := []string{"a.com/x", "a.com/y", "a.com/x/"}
 	idVals := []string{"", "1", "2", "12"}
 	orgVals := []string{"", "7", "1"}
 	// size limit around two or three typical entries
